@@ -831,6 +831,7 @@ func runLock(c LCase) error {
 	payload := rtmpx.Fill(c.Size, 0x77)
 	var wg sync.WaitGroup
 	var dataErr, ctlErr error
+	earlyOK := 0
 	wg.Add(1)
 	go func() {
 		defer wg.Done()
@@ -843,10 +844,10 @@ func runLock(c LCase) error {
 	}
 	// the writer is inside the transport and holds the connection's write lock
 	for i := 0; i < c.Timeouts; i++ {
-		e := conn.WriteControl(websocket.PingMessage, []byte("gives up"), time.Now().Add(3*time.Millisecond))
-		if e == nil {
-			close(h.resume)
-			return fmt.Errorf("a control frame with a 3ms deadline was written while the data writer held the connection inside a transport write")
+		// (this library gives up with a timeout error; an implementation that queues the frame and returns nil is
+		// not excluded by the statement - either way the wire must stay whole)
+		if e := conn.WriteControl(websocket.PingMessage, []byte("gives up"), time.Now().Add(3*time.Millisecond)); e == nil {
+			earlyOK++
 		}
 	}
 	wg.Add(1)
@@ -887,7 +888,7 @@ func runLock(c LCase) error {
 		case f.Op == 2 && len(data) == 0 && !fin, f.Op == 0 && !fin:
 			data = append(data, f.Payload...)
 			fin = f.Fin
-		case int(f.Op) == c.Op && f.Fin:
+		case int(f.Op) == c.Op && f.Fin, f.Op == 9 && f.Fin && string(f.Payload) == "gives up":
 			ctl++
 			closed = f.Op == 8
 		default:
@@ -895,8 +896,8 @@ func runLock(c LCase) error {
 		}
 		off += n
 	}
-	if ctl != 1 {
-		return fmt.Errorf("%d control frames on the wire, want the one that waited (those that gave up are not sent)", ctl)
+	if ctl < 1 || ctl > 1+earlyOK {
+		return fmt.Errorf("%d control frames on the wire, want the one that waited (and at most the %d whose call returned nil)", ctl, earlyOK)
 	}
 	if dataErr == nil && !(fin && bytes.Equal(data, payload)) {
 		return fmt.Errorf("the data write returned nil, the wire holds %d of its %d bytes (complete: %v)", len(data), len(payload), fin)
